@@ -133,6 +133,13 @@ Record mst := {
 
 Definition minit : mst := {| m_reg := []; m_pend := []; m_log := []; m_last := [] |}.
 
+(* Done may be followed by "waiter t2 acquired the mutex", then the data *)
+Definition split_acq (rest : list obs) : option N * list obs :=
+  match rest with
+  | Acquired t2 :: d => (Some t2, d)
+  | d => (None, d)
+  end.
+
 Definition mon (m : mst) (o : op) (out : list obs) : mst * verdict :=
   match o with
   | Begin t u =>
@@ -151,12 +158,11 @@ Definition mon (m : mst) (o : op) (out : list obs) : mst * verdict :=
           | Some u =>
               let r1 := spec_apply (m_reg m) u in
               let pend1 := remove_N t (m_pend m) in
-              let '(vacq, dump) :=
-                match rest with
-                | Acquired t2 :: d =>
-                    (match assoc_N t2 pend1 with Some _ => [] | None => [CL_SHAPE] end, d)
-                | d => ([], d)
-                end in
+              let '(acq, dump) := split_acq rest in
+              let vacq := match acq with
+                          | Some t2 => match assoc_N t2 pend1 with Some _ => [] | None => [CL_SHAPE] end
+                          | None => []
+                          end in
               match parse_list dump with
               | None => ({| m_reg := r1; m_pend := pend1; m_log := u :: m_log m; m_last := m_last m |}, [CL_SHAPE])
               | Some l =>
